@@ -41,6 +41,10 @@ NextIrrelevant == \E k \in {"continuous", "integer", "binary"}, b \in BoundShape
     vec' = Ev("evaluate", [inst |-> Inst("max", << V(1, "integer", B(R(0), R(2))), V(5, k, b) >>, L(<< T(1, R(1)) >>, Zero),
                                          << C(3, "le", L(<< T(1, R(1)) >>, R(-1))) >>, <<>>, <<>>),
                            st |-> IF given /\ b # <<>> /\ IsFin(b[1].lo) THEN << <<1, R(1)>>, <<5, b[1].lo>> >> ELSE << <<1, R(1)>> >>])
+\* ---- C05: a binary variable may carry an explicit tightened bound ([0,0], [1,1]); it is the bound that counts -------
+NextBinaryBound == \E b \in { <<>>, B(Zero, One), B(Zero, Zero), B(One, One) }, x \in {R(0), R(1), R(2), R(-1)}, used \in BOOLEAN, k \in {"binary", "integer"} :
+    vec' = Ev("evaluate", [inst |-> Inst("min", << V(1, k, b), V(2, "continuous", <<>>) >>, L(<< T(IF used THEN 1 ELSE 2, R(1)) >>, Zero), <<>>, <<>>, <<>>),
+                           st |-> << <<1, x>>, <<2, R(1)>> >>])
 \* ---- C05 / C03: fixed and dependent variables -------------------------------------------------------------------
 DepInst(order) == Inst("min", << V(1, "continuous", <<>>), V(2, "continuous", <<>>), [V(3, "integer", B(R(0), R(5))) EXCEPT !.fixed = <<R(2)>>], V(4, "continuous", <<>>), V(6, "binary", <<>>) >>,
                  L(<< T(1, R(1)) >>, Zero), << C(1, "le", L(<< T(1, R(1)) >>, R(-3))) >>, <<>>,
@@ -143,7 +147,7 @@ NextWithParameters == \E a \in {R(0), R(2), <<-1,2>>}, b \in {R(1), R(-3)}, shap
                        [] shape = "missing50" -> << <<51, b>> >> [] shape = "missing51" -> << <<50, a>> >> [] OTHER -> <<>>])
 Step(A) == phase = 0 /\ phase' = 1 /\ A
 Init == vec = <<>> /\ phase = 0
-DoEvaluate == Step(NextTol \/ NextIrrelevant \/ NextDeps)
+DoEvaluate == Step(NextTol \/ NextIrrelevant \/ NextBinaryBound \/ NextDeps)
 DoLogEncode == Step(NextLogEncode)
 DoHistories == Step(NextHistories)
 DoSamples == Step(NextSamples)
